@@ -1,79 +1,50 @@
-import QR.Model.Data
-import QR.Spec.GF
-import QR.Spec.Tables
-import QR.Proofs.Finite
+import QR.Proofs.C02Tables
+import QR.Proofs.Interleave
 /-
-C02 - Reed-Solomon: the translated tables are the ISO field, generator polynomials and Table 9 (finite part).
+C02 - every error-correction block is a codeword of the ISO Reed-Solomon code; block structure = ISO Table 9.
 -/
 namespace QR.Props
-open QR
+open QR QR.Model
 
-def allLevels : List Spec.Level := [.L, .M, .Q, .H]
+/-- `EXP_TABLE[i] = α^i` in GF(2)[x]/(x^8+x^4+x^3+x^2+1) for all 255 exponents (tables regenerated from the source) -/
+theorem C02_field : ∀ i, i < 255 → Gen.EXP_TABLE[i]? = some (Spec.gfpow Spec.alpha i) := C02_field_exp
 
-/-- every EC-codewords-per-block value that occurs in ISO Table 9 -/
-def eccLengths : List Nat := [7, 10, 13, 15, 16, 17, 18, 20, 22, 24, 26, 28, 30]
+/-- `LOG_TABLE` inverts `EXP_TABLE` on the 255 non-zero field elements -/
+theorem C02_log : ∀ a, a < 255 →
+    (Gen.LOG_TABLE[a + 1]?).bind (fun k => if k < 255 then Gen.EXP_TABLE[k]? else none) = some (a + 1) := C02_field_log
 
-set_option maxRecDepth 100000 in
-theorem eccLengths_complete :
-    ∀ v, v < 40 → ∀ l ∈ allLevels, Spec.eccLen (v + 1) l ∈ eccLengths := by
-  have h : (List.range 40).all (fun v => allLevels.all fun l => eccLengths.contains (Spec.eccLen (v + 1) l)) = true := by
-    decide +kernel
-  intro v hv l hl
-  have := forall_mem_of_all (forall_lt_of_all h v hv) l hl
-  simpa using this
+/-- the generator look-up table holds the ISO generator ∏_{i<e}(x − α^i) for each of the 13 block shapes ... -/
+theorem C02_generators : ∀ e ∈ eccLengths, Gen.rsPoly_LUT.lookup e = some (Spec.generator e) := C02_genpoly
 
-set_option maxRecDepth 100000 in
-/-- `EXP_TABLE[i] = α^i` in GF(2)[x]/(x^8+x^4+x^3+x^2+1) for the 255 exponents `gexp` can reach -/
-theorem C02_field_exp : ∀ i, i < 255 → Gen.EXP_TABLE[i]? = some (Spec.gfpow Spec.alpha i) := by
-  have h : (List.range 255).all (fun i => Gen.EXP_TABLE[i]? == some (Spec.gfpow Spec.alpha i)) = true := by decide +kernel
-  intro i hi; simpa using forall_lt_of_all h i hi
-
-set_option maxRecDepth 100000 in
-/-- `LOG_TABLE` inverts `EXP_TABLE` on the non-zero field elements, with logarithms below 255 -/
-theorem C02_field_log :
-    ∀ a, a < 255 → (Gen.LOG_TABLE[a + 1]?).bind (fun k => if k < 255 then Gen.EXP_TABLE[k]? else none) = some (a + 1) := by
-  have h : (List.range 255).all (fun a =>
-      (Gen.LOG_TABLE[a + 1]?).bind (fun k => if k < 255 then Gen.EXP_TABLE[k]? else none) == some (a + 1)) = true := by
-    decide +kernel
-  intro a ha; simpa using forall_lt_of_all h a ha
-
-set_option maxRecDepth 100000 in
-set_option maxHeartbeats 2000000 in
-/-- the look-up table holds, for every block shape of Table 9, exactly the ISO generator ∏_{i<e}(x − α^i) -/
-theorem C02_genpoly : ∀ e ∈ eccLengths, Gen.rsPoly_LUT.lookup e = some (Spec.generator e) := by
-  have h : eccLengths.all (fun e => Gen.rsPoly_LUT.lookup e == some (Spec.generator e)) = true := by decide +kernel
-  intro e he; simpa using forall_mem_of_all h e he
-
-set_option maxRecDepth 100000 in
-set_option maxHeartbeats 2000000 in
-/-- the Spec generators really are monic of degree e, have no zero coefficient and vanish at α^0..α^(e-1) -/
-theorem C02_generator_roots : ∀ e ∈ eccLengths,
+/-- ... which is monic of degree e, has no zero coefficient and vanishes at α^0 .. α^(e-1) -/
+theorem C02_roots : ∀ e ∈ eccLengths,
     (Spec.generator e).length = e + 1 ∧ (Spec.generator e).head? = some 1 ∧ (∀ c ∈ Spec.generator e, c ≠ 0 ∧ c < 256) ∧
-    ∀ i, i < e → Spec.peval (Spec.gfpow Spec.alpha i) (Spec.generator e) = 0 := by
-  have h : eccLengths.all (fun e =>
-      (Spec.generator e).length == e + 1 && (Spec.generator e).head? == some 1 &&
-      (Spec.generator e).all (fun c => c != 0 && decide (c < 256)) &&
-      (List.range e).all (fun i => Spec.peval (Spec.gfpow Spec.alpha i) (Spec.generator e) == 0)) = true := by
-    decide +kernel
-  intro e he
-  have := forall_mem_of_all h e he
-  simp only [Bool.and_eq_true, beq_iff_eq, List.all_eq_true, bne_iff_ne, ne_eq, decide_eq_true_eq, List.mem_range] at this
-  exact ⟨this.1.1.1, this.1.1.2, this.1.2, this.2⟩
+    ∀ i, i < e → Spec.peval (Spec.gfpow Spec.alpha i) (Spec.generator e) = 0 := C02_generator_roots
 
-set_option maxRecDepth 100000 in
-/-- `base.rs_blocks` returns ISO Table 9 (block count, total and data codewords, short blocks first) for all
-    160 (version, level) pairs -/
-theorem C02_table : ∀ v, v < 40 → ∀ l ∈ allLevels,
-    Model.rsBlocks (v + 1) l.indicator = .ok (Spec.isoBlocks (v + 1) l) := by
-  have h : (List.range 40).all (fun v => allLevels.all fun l =>
-      match Model.rsBlocks (v + 1) l.indicator with
-      | .ok b => b == Spec.isoBlocks (v + 1) l
-      | .error _ => false) = true := by decide +kernel
-  intro v hv l hl
-  have := forall_mem_of_all (forall_lt_of_all h v hv) l hl
-  revert this
-  cases Model.rsBlocks (v + 1) l.indicator with
-  | ok b => intro h; simp at h; rw [h]
-  | error e => intro h; simp at h
+/-- `rs_blocks(v, level)` = ISO Table 9 (number of blocks, total and data codewords, short blocks first), 160 pairs -/
+theorem C02_table9 : ∀ v, v < 40 → ∀ l ∈ allLevels,
+    Model.rsBlocks (v + 1) l.indicator = .ok (Spec.isoBlocks (v + 1) l) := C02_table
+
+/-- interleaving is exactly undone by the reader's de-interleaving, for ANY list of blocks -/
+theorem C02_interleave (blocks : List (List Nat)) :
+    Spec.deinterleave (blocks.map List.length) (Model.interleave blocks) = blocks :=
+  QR.Interleave.deinterleave_interleave blocks
+
+/-- block structure of `create_bytes` for every (version, level) and every data content: the reader's view of the
+    codeword sequence is the consecutive slices of the data (Table 9 lengths) each followed by its own EC codewords,
+    nothing lost or reordered (hypothesis: per-block EC computation is total with the right length - discharged by the
+    Reed-Solomon division theorem) -/
+theorem C02_block_structure (v : Nat) (hv : v < 40) (l : Spec.Level) (buf : List Nat)
+    (hlen : buf.length = Spec.dataCodewords (v + 1) l) (hbytes : ∀ x ∈ buf, x < 256)
+    (hec : ∀ (dc : List Nat) (e : Nat), dc ≠ [] → (∀ x ∈ dc, x < 256) →
+      e ∈ [7, 10, 13, 15, 16, 17, 18, 20, 22, 24, 26, 28, 30] →
+      ∃ ec, Model.ecOfBlock dc e = .ok ec ∧ ec.length = e) :
+    ∃ (bs : List (List Nat × List Nat)) (cw : List Nat), Model.createBytes buf (Spec.isoBlocks (v + 1) l) = .ok cw ∧
+      cw.length = Spec.totalCodewords (v + 1) ∧
+      Spec.blocksOf (v + 1) l cw = bs.map QR.Interleave.toBlock ∧
+      (Spec.blocksOf (v + 1) l cw).flatMap (·.data) = buf ∧
+      (∀ p ∈ bs, p.1 ≠ [] ∧ Model.ecOfBlock p.1 (Spec.eccLen (v + 1) l) = .ok p.2 ∧ p.2.length = Spec.eccLen (v + 1) l) := by
+  obtain ⟨bs, cw, _, h2, _, h4, _, _, _, h8, h9, h10⟩ := QR.Interleave.createBytes_blocksOf' v hv l buf hlen hbytes hec
+  exact ⟨bs, cw, h2, h4, h9, h10, fun p hp => ⟨(h8 p hp).1, (h8 p hp).2.2.1, (h8 p hp).2.2.2⟩⟩
 
 end QR.Props
